@@ -247,6 +247,11 @@ pub fn make_rcase(docs: &[Doc], doc: &Doc) -> Option<RCase> {
             if idx.is_some() {
                 s.push(regions(&["sq0", "sq1:200-300", "sq0:1-20"]));
                 s.push(regions(&["sq1", "sq2", "nope", "sq0:100-130"]));
+                // the same region twice, two regions that share their first chunk, and a region query
+                // after query_unmapped after the same region query (stale seek state in the async reader)
+                s.push(regions(&["sq0", "sq0"]));
+                s.push(regions(&["sq0:1-20", "sq0:10-40"]));
+                s.push(regions(&["sq0", "*", "sq0"]));
                 s.push(Script::Unmapped);
                 s.push(Script::Mixed("sq0:15-125".into()));
             }
@@ -258,6 +263,8 @@ pub fn make_rcase(docs: &[Doc], doc: &Doc) -> Option<RCase> {
             if idx.is_some() {
                 s.push(regions(&["sq0", "sq1:200-300", "sq0:1-20"]));
                 s.push(regions(&["sq1", "sq2", "sq0:30-40"]));
+                s.push(regions(&["sq0", "sq0"]));
+                s.push(regions(&["sq0:1-20", "sq0:10-40"]));
                 s.push(Script::Mixed("sq0:15-125".into()));
             }
             (idx, s)
@@ -268,6 +275,8 @@ pub fn make_rcase(docs: &[Doc], doc: &Doc) -> Option<RCase> {
             if idx.is_some() {
                 s.push(regions(&["sq0", "sq1:200-300", "sq0:1-20"]));
                 s.push(regions(&["sq1", "sq2", "sq0:30-40"]));
+                s.push(regions(&["sq0", "sq0"]));
+                s.push(regions(&["sq0:1-20", "sq0:10-40"]));
                 s.push(Script::Mixed("sq0:15-125".into()));
             }
             (idx, s)
@@ -279,6 +288,7 @@ pub fn make_rcase(docs: &[Doc], doc: &Doc) -> Option<RCase> {
             if idx.is_some() {
                 s.push(regions(&["sq0", "sq1:200-300", "sq0:1-20"]));
                 s.push(regions(&["sq1", "nope"]));
+                s.push(regions(&["sq0", "sq0"]));
                 s.push(Script::Unmapped);
             }
             (idx, s)
@@ -457,6 +467,11 @@ macro_rules! indexed_scripts {
             Script::Seq(_) => unreachable!(),
             Script::Query(regions) => {
                 for region in regions {
+                    if region == "*" {
+                        // `query_unmapped` between region queries (it seeks through `seek()`, not `poll_seek`)
+                        indexed_scripts!(@unmapped $unmapped, $m, $t, $r, $vm, $case, $render);
+                        continue;
+                    }
                     let parsed: Region = region.parse().expect("region literal");
                     let q = with_binning_index!($case, idx, $r.query(&$header, idx, &parsed));
                     match q {
